@@ -166,7 +166,7 @@ def _recall_update(
 
     if average == "micro":
         num_tp = (input == target).sum()
-        num_labels = target.new_tensor(target.numel())
+        num_labels = target.new_tensor(target.numel(), dtype=torch.int64)
         num_predictions = num_labels
         return num_tp, num_labels, num_predictions
 
